@@ -867,6 +867,8 @@ class Inliner:
         i = 0
         while i < len(stmts):
             s = stmts[i]
+            if s.get("kind") == "IfStmt" and self._hoist_cond_call(stmts, i, fn, stack):
+                continue                      # a declaration `h = helper(..)` now sits at position i: expanded on this turn
             for sub in _sub_blocks(s):
                 self._inline_block(sub, fn, stack)
             call, role = self._stmt_call(s)
@@ -882,6 +884,66 @@ class Inliner:
                         i += len(new)
                         continue
             i += 1
+
+    def _hoist_cond_call(self, stmts, i, fn, stack):
+        """N3b: `if (.. helper(args) ..)` with a side-effect-free helper (writes only its own scalars, calls only pure library functions or
+        other such helpers) and pure arguments  ->  `T h = helper(args); if (.. h ..)`.  The value of a pure terminating call does not
+        depend on where it is evaluated; short-circuit evaluation only decides whether it is evaluated at all."""
+        s = stmts[i]
+        cond = s["inner"][0]
+        if not (isinstance(cond, dict) and cond.get("kind")):
+            return False
+        for parent in walk({"inner": [cond], "kind": "Holder"}):
+            inner = parent.get("inner") or []
+            for j, c in enumerate(inner):
+                if not (isinstance(c, dict) and c.get("kind") == "CallExpr"):
+                    continue
+                nm = callee_name(c)
+                if nm is None or nm in PURE_CALLS:
+                    continue
+                q = self.helper(nm, fn["file"])
+                if q is None or q in stack:
+                    continue
+                cal = self.fns[q]
+                if cal.get("rettype") in (None, "void") or not self._side_effect_free(q, stack):
+                    continue
+                if not all(is_pure(a) for a in c["inner"][1:]):
+                    continue
+                self.counter += 1
+                name = f"{cal['name']}$h{self.counter}"
+                line = s.get("_line")
+                decl = mk("DeclStmt", [mk("VarDecl", [copy.deepcopy(c)], line, name=name, type={"qualType": cal["rettype"]}, init="c")], line)
+                r = ref(name, cal["rettype"], line)
+                if parent.get("kind") == "Holder":
+                    s["inner"][0] = r
+                else:
+                    inner[j] = r
+                stmts.insert(i, decl)
+                return True
+        return False
+
+    def _side_effect_free(self, q, stack, depth=0):
+        fn = self.fns[q]
+        if depth > 4:
+            return False
+        wsc, war, unk = writes(fn["body"])
+        lsc, lpt = local_vars(fn)
+        params = {p_["name"] for p_ in fn["params"]}
+        if war or unk or not wsc <= (lsc | params) or lpt:
+            return False
+        if any(p_["type"]["qualType"].rstrip().endswith("*") and p_["name"] in wsc for p_ in fn["params"]):
+            return False
+        for x in walk(fn["body"]):
+            if x.get("kind") == "CallExpr":
+                nm = callee_name(x)
+                if nm in PURE_CALLS:
+                    continue
+                q2 = self.helper(nm, fn["file"]) if nm else None
+                if q2 is None or q2 == q or q2 in stack or not self._side_effect_free(q2, stack, depth + 1):
+                    return False
+            if x.get("kind") in ("WhileStmt", "DoStmt", "GotoStmt"):
+                return False
+        return True
 
     def _stmt_call(self, s):
         """(call node, role) when statement s is `f(..);`, `x = f(..);`, `x op= f(..);` or `return f(..);`"""
